@@ -402,6 +402,10 @@ func c05Shapes() []*E {
 	// unhashable elements
 	// typed nil pointers to a struct and to a map, a struct whose pointer field is nil / set
 	base = append(base, ZT(Hash(nil, nil), "nilptrstruct"), ZT(Hash(nil, nil), "nilptrmap"), ZT(Hash(nil, nil), "outer"), ZT(Hash([]string{"Author"}, []*E{Str("au")}), "outer"))
+	// sequences whose element type is an interface (other than the empty one behind a plain list),
+	// named, an array, or itself a collection
+	base = append(base, ZT(List(Int(1), Str("a")), "named[]iface"), ZT(List(), "named[]iface"), ZT(List(Str("b"), Str("a")), "named[]string"), ZT(List(Int(2), Int(1)), "named[]int"),
+		ZT(List(Int(1), Str("a")), "[2]iface"), ZT(List(Str("x"), Str("y")), "[]error"), ZT(List(Str("x"), Str("y")), "[]stringer"), ZT(List(Int(1), Int(5)), "[][]int"), ZT(List(Int(1), Int(5)), "[]map"))
 	base = append(base, c05Big(func(i int) *E { return Int(int64(i)) }), c05Big(func(i int) *E { return List(Int(int64(i))) }),
 		c05Big(func(i int) *E { return Hash([]string{"k"}, []*E{Int(int64(i))}) }), ZT(c05Big(func(i int) *E { return Int(int64(i)) }), "[]int"))
 	return base
@@ -427,7 +431,7 @@ var c05BinaryExprs = []string{"x + y", "x - y", "x * y", "x / y", "x % y", "x ^ 
 	"max(x, y)", "min(x, y)", "range(x, y)", "range(1, 5, y)", "range(x, y, y)", "merge(x, y)", "cycle(x, y)", "x is divisible_by(y)", "x is same_as(y)", "x is matches(y)", "date(x, y)", "random(x, y)", "x|batch(y)"}
 
 func TestC05Shapes(t *testing.T) {
-	r := NewRec(t, "C05", "bounded exhaustive: ~125 unary expressions (every operator, filter, function and test of the core extension, attribute/index access incl. x[undefined]) x ~60 Go value shapes (nil, scalars of every width, strings, untyped and typed slices, arrays, untyped and typed maps incl. non-string keys, structs, pointers incl. nil, time, []byte, named types, Stringer), and ~50 binary expressions x all pairs of 22 representative shapes (incl. strings hostile as patterns/separators/formats and 60-element lists of scalars, lists and maps), each in print / if / for / set position; non-trivial = the value is not a map[string]interface{} / []interface{} / string / int")
+	r := NewRec(t, "C05", "bounded exhaustive: ~125 unary expressions (every operator, filter, function and test of the core extension, attribute/index access incl. x[undefined]) x ~60 Go value shapes (nil, scalars of every width, strings, untyped and typed slices (also named ones and slices of error / Stringer / slices / maps), arrays (also of interface{}), untyped and typed maps incl. non-string keys, structs, pointers incl. nil, time, []byte, named types, Stringer), and ~50 binary expressions x all pairs of 22 representative shapes (incl. strings hostile as patterns/separators/formats and 60-element lists of scalars, lists and maps), each in print / if / for / set position; non-trivial = the value is not a map[string]interface{} / []interface{} / string / int")
 	defer r.Flush()
 	r.SetExhaustive()
 	shapes := c05Shapes()
